@@ -140,6 +140,9 @@ def extract_strategy(cls):
     members = re.findall(r"double (m_\w+)\{([^}]+)\};", cbody)
     if not members:
         raise RuleError("no members found in " + cls)
+    # named constants of the class (static constexpr double name{value}; / = value;) become C constants
+    consts = re.findall(r"static constexpr double (\w+)\s*(?:\{([^}]+)\}|=\s*([^;]+));", cbody)
+    extract_strategy.consts = [(n, (a or b).strip()) for n, a, b in consts]
     return body, members, log
 
 
@@ -170,6 +173,7 @@ def minimize_c_file():
 def strategy_c_file(cls):
     body, members, log = extract_strategy(cls)
     decl = "".join("static double %s = %s;\n" % (n, v) for n, v in members)
+    decl += "".join("static const double %s = %s;\n" % (n, v) for n, v in getattr(extract_strategy, "consts", []))
     src = ('#include <math.h>\n#include <stdbool.h>\n'
            'double stub_fdiv(double a, double b)\n__CPROVER_requires(1)\n__CPROVER_ensures(1)\n__CPROVER_assigns()\n;\n' + decl +
            'bool step_and_update(const double rho)\n'
